@@ -329,6 +329,8 @@ def run(ctx):
         ctx.tally("directio", repr(dv)); ctx.tally("blocks", c["num_blocks"]); ctx.tally("blocksize_mod_512", c["block_size"] % 512 == 0)
         if "error" not in r and not any(isinstance(s, dict) for s in r["struct"]):
             ctx.tally("cards_mod_32", (len(r["struct"][0][0]["cards"]) + 1) % 32)
+        if (r.get("rerecord") or {}).get("not_repeated"):
+            ctx.extra.setdefault("rerecord_errors_not_repeated", []).append(r["rerecord"]["not_repeated"][:300])
         for key, msg in oracle(c, r, tpl):
             ctx.impl_violation(key, msg, c)
         if ci in model:
